@@ -210,15 +210,41 @@ def r7_value_passes(rep, facts, rid='C13/R7'):
               f'table (or array of tables) would be read back as a member of that table', facts.loc(b))
 
 
+def r8_variant_payload(rep, facts):
+    R = rep.rule('C13/R8', 'Value::try_from and Table::try_from agree on enum variants: the payload of a variant is a value below the root, so the root table serializer hands it '
+                 'to the same serializer (by type) as the value serializer does; only the one-entry table around it differs (cross-check of sibling implementations)', floor=1)
+    SER = 'serde::ser::Serializer'
+    va = [i for i in facts.impls if i.get('trait') == SER and i.get('self_ty') == 'toml::value::ValueSerializer']
+    ta = [i for i in facts.impls if i.get('trait') == SER and i.get('self_ty') == 'toml::value::TableSerializer']
+    if not va or not ta:
+        rep.incomplete(R, 'impls', 'Serializer impls of toml::value::ValueSerializer / TableSerializer not found')
+        return
+    for meth in ('serialize_newtype_variant',):
+        dv, dt = facts.impl_method(va[0], meth), facts.impl_method(ta[0], meth)
+        if not dv or not dt or not facts.has_body(dv) or not facts.has_body(dt):
+            rep.incomplete(R, meth, 'method not found in both serializers')
+            continue
+        def inner(d):
+            b = facts.body(d)
+            return sorted({(peel(x['args'][0]).get('t') or '?') for x in walk(b['body']) if x.get('k') == 'mcall' and x.get('name') == 'serialize' and x.get('args')})
+        iv, it_ = inner(dv), inner(dt)
+        rep.check(R, meth, iv == it_ and bool(iv), f'payload serialized with {iv}', f'`TableSerializer::{meth}` serializes the payload with {it_}, `ValueSerializer::{meth}` with {iv}: '
+                  f'Table::try_from and Value::try_from then disagree on (or one of them rejects) a root newtype variant whose payload is not a struct', facts.loc(facts.body(dt)))
+
+
 def rules(rep, facts):
     feats = set(facts.crates.get('toml_edit', {}).get('features', []))
     if 'toml' not in facts.crates:
         return
+    r8_variant_payload(rep, facts)
     r1_wrappers(rep, facts)
     r7_value_passes(rep, facts)
     if 'toml_edit' in facts.crates and 'serde' in feats:
         r2_tunnel(rep, facts)
         r4_none_and_insert(rep, facts)
+        from .rules_c07 import r3_promotion
+        r3_promotion(rep, facts)
+        rep.relabel('C07/R3', 'C13/R9', 'the pretty route prints what the plain route prints (a formatting pass that promotes tables inside values loses them: the text then decodes to another value): ')
         from .rules_c07 import r7_forwarding
         r7_forwarding(rep, facts, rid='C13/R6', traits=(sm.SER, sm.DE))
         if 'parse' in feats:
